@@ -128,20 +128,20 @@ static void part_chain(const std::vector<unsigned>& ns, unsigned steps) {
         case 1: m = std::make_shared<RFKickMap>(in, out, (float)revpart, (float)VRF, (float)frf, (float)V0, itt, false, nullptr); break;
         case 2: m = std::make_shared<DynamicRFKickMap>(in, out, n, n, angle, revpart, frf, 0.f, 0.f, 0.05f, 0.11, steps, itt, false, nullptr); break;
         case 3: m = std::make_shared<DynamicRFKickMap>(in, out, n, n, revpart, VRF, frf, V0, 0.f, 0.f, 0.05f, 0.11, steps, itt, false, nullptr); break;
-        case 4: m = std::make_shared<DynamicRFKickMap>(in, out, n, n, angle, revpart, frf, 0.02f, 0.05f, 0.f, 0.0, steps, itt, false, nullptr); break;
-        case 5: m = std::make_shared<DynamicRFKickMap>(in, out, n, n, revpart, VRF, frf, V0, 0.02f, 0.05f, 0.02f, 0.07, steps, itt, false, nullptr); break;
+        case 4: m = std::make_shared<DynamicRFKickMap>(in, out, n, n, angle, revpart, frf, 0.003f, 0.05f, 0.f, 0.0, steps, itt, false, nullptr); break;
+        case 5: m = std::make_shared<DynamicRFKickMap>(in, out, n, n, revpart, VRF, frf, V0, 0.003f, 0.05f, 0.02f, 0.07, steps, itt, false, nullptr); break;
         case 6: m = std::make_shared<DriftMap>(in, out, std::vector<float>{angle, 0.f, 0.f}, 1.3e9f, itt, false, nullptr); break;
         default: m = std::make_shared<DriftMap>(in, out, std::vector<float>{angle, 0.4f * angle, -0.3f * angle}, 1.3e9f, itt, false, nullptr); break;
         }
         const std::string key = std::string("C15/chain/") + CN[kind];
-        double worst = 0;
+        double worst = 0; unsigned compared = 0;
         for (unsigned r0 = 2; r0 + 2 < n; r0++) {
             // one chain per row: the maps with a queue are rebuilt (their queue holds `steps` entries)
             if (kind >= 2 && kind <= 5 && r0 > 2) {
                 if (kind == 2) m = std::make_shared<DynamicRFKickMap>(in, out, n, n, angle, revpart, frf, 0.f, 0.f, 0.05f, 0.11, steps, itt, false, nullptr);
                 if (kind == 3) m = std::make_shared<DynamicRFKickMap>(in, out, n, n, revpart, VRF, frf, V0, 0.f, 0.f, 0.05f, 0.11, steps, itt, false, nullptr);
-                if (kind == 4) m = std::make_shared<DynamicRFKickMap>(in, out, n, n, angle, revpart, frf, 0.02f, 0.05f, 0.f, 0.0, steps, itt, false, nullptr);
-                if (kind == 5) m = std::make_shared<DynamicRFKickMap>(in, out, n, n, revpart, VRF, frf, V0, 0.02f, 0.05f, 0.02f, 0.07, steps, itt, false, nullptr);
+                if (kind == 4) m = std::make_shared<DynamicRFKickMap>(in, out, n, n, angle, revpart, frf, 0.003f, 0.05f, 0.f, 0.0, steps, itt, false, nullptr);
+                if (kind == 5) m = std::make_shared<DynamicRFKickMap>(in, out, n, n, revpart, VRF, frf, V0, 0.003f, 0.05f, 0.02f, 0.07, steps, itt, false, nullptr);
             }
             const unsigned c0 = n / 2;
             float* din = in->getData(); std::fill(din, din + (size_t)n * n, 0.f);
@@ -155,7 +155,7 @@ static void part_chain(const std::vector<unsigned>& ns, unsigned steps) {
                 R.eval(kase + " row=" + std::to_string(r0) + " step=" + std::to_string(k), mcx::fnv(&got, 8, mcx::fnvs(kase) + r0 * 100 + k), false);
                 if (!std::isfinite(got) || got < 0 || got > n - 1) { char d[160]; snprintf(d, 160, "row %u step %u: particle at %g", r0, k, got); R.violate(key + "/leaves-grid", kase, d); break; }
                 if (std::fabs(q - 1) > 2e-6 || cen < 3 || cen > n - 4) break;    // the charge (or the far lobes of the interpolation) reaches the border: the comparison ends for this row
-                worst = std::max(worst, std::fabs(cen - got));
+                worst = std::max(worst, std::fabs(cen - got)); compared++;
                 if (!(std::fabs(cen - got) <= 5e-4)) {
                     char d[240]; snprintf(d, 240, "row %u step %u: particle at %.6f, centre of the charge it started on at %.6f", r0, k, got, cen);
                     R.violate(key + "/does-not-follow-flow", kase, d); break;
@@ -163,7 +163,10 @@ static void part_chain(const std::vector<unsigned>& ns, unsigned steps) {
                 std::copy(o, o + (size_t)n * n, in->getData());
             }
         }
-        R.maxnum("worst_chain_particle_vs_centroid", worst);
+        R.maxnum("worst_chain_particle_vs_centroid", worst); R.addnum("sum_chain_comparisons", compared); R.maxnum("worst_chain_fraction_not_compared", 1.0 - compared / double((n - 4) * steps));
+        // the comparison ends where the charge reaches the border; a map that loses the charge at once must not pass by leaving nothing to compare
+        // (deterministic kicks: at least two steps per row; with random noise the blob may be thrown out early: at least one step per row on average)
+        if (compared < (n - 4) * ((kind == 4 || kind == 5) ? 1 : 2)) R.violate(key + "/charge-lost-before-comparison", kase, "only " + std::to_string(compared) + " (row, step) comparisons were possible");
     }
     R.bound_done("chain: n x {static RF linear/sin, dynamic RF linear/sin with modulation / with noise, drift, drift with alpha1,2} x it{2,3,4} x 2 grid shifts x every interior row x " + std::to_string(steps) + " consecutive steps");
 }
